@@ -228,6 +228,8 @@ var panicSelectors = map[string]bool{
 	"NewDecCoins": true, "NewDecCoin": true, "MustNewDecFromStr": true, "MustUnmarshal": true, "MustMarshal": true,
 	"MustBech32ifyAddressBytes": true, "MustAccAddressFromBech32": true, "MustMarshalJSON": true, "MustUnmarshalJSON": true,
 	"MustSortJSON": true, "MustUnmarshalLengthPrefixed": true, "MustMarshalLengthPrefixed": true,
+	// the EVM panics on a callee address it treats as a precompile without holding an instance for it (F25)
+	"CallEVM": true, "CallEVMWithData": true,
 }
 
 func isMapType(e ast.Expr) bool {
@@ -480,7 +482,10 @@ func runInventoryCmd(args []string) {
 							}
 						}
 					case *ast.TypeAssertExpr:
-						add(&panicSites, "assert", x)
+						// x.(type), the guard of a type switch, selects a case and cannot panic
+						if x.Type != nil {
+							add(&panicSites, "assert", x)
+						}
 					case *ast.RangeStmt:
 						isMap := false
 						switch r := x.X.(type) {
